@@ -47,6 +47,8 @@ def run(ctx):
     b_postprocess_total(ctx)
     b_guards_live(ctx)
     g_waiter_woken_at_end(ctx)
+    b_event_limit_ends_turn(ctx)
+    c_generated_flow_name(ctx)
     b_dynamic_flow_bounded(ctx)
 
 
@@ -843,6 +845,50 @@ def g_waiter_woken_at_end(ctx):
               "while buffering, every path through on_llm_end sets `%s`" % evname if ok else
               "while the handler buffers, on_llm_end can return without setting `%s`: an LLM answer with at most k non-empty lines (no bot message line, an empty completion) leaves "
               "wait_top_k_nonempty_lines - and with it generate_async - waiting for ever" % evname, line=end.lineno)
+
+
+def b_event_limit_ends_turn(ctx):
+    """Nothing between RuntimeV1_0.generate_events and LLMRails.generate catches an exception, so a `raise` in the event loop is a `generate` that raises.  What the LLM wrote
+    decides how many events a turn takes (multi-step generation: a generated flow of nine `bot ...` steps, a label/goto loop): the event limit must END the turn with a message,
+    not raise (F151)."""
+    RT1_ = "nemoguardrails/colang/v1_0/runtime/runtime.py"
+    t = ctx.tree.ast(RT1_)
+    fn = find_function(t, "generate_events", "RuntimeV1_0")
+    if fn is None:
+        raise AnalysisError("RuntimeV1_0.generate_events not found", anchor=RT1_ + "::RuntimeV1_0.generate_events")
+    loops = [l for l in walk_no_nested(fn) if isinstance(l, ast.While)]
+    ctx.floor("C17.b.event-limit-ends-turn", RT1_, "event loop of generate_events", len(loops), 1)
+    raises = [r for l in loops for r in ast.walk(l) if isinstance(r, ast.Raise) and contained(r, fn) is None]
+    limits = [i for l in loops for i in ast.walk(l) if isinstance(i, ast.If) and "len(new_events)" in src(i.test)]
+    ok = bool(limits) and not raises
+    ctx.check("C17.b.event-limit-ends-turn", RT1_, "RuntimeV1_0.generate_events", "the event loop does not raise", ok,
+              "the event limit ends the turn (internal error message, Listen); the loop contains no uncaught raise" if ok else
+              "`%s` inside the event loop escapes from generate: an LLM-generated flow of nine valid `bot ...` steps (or a label/goto loop) makes generate raise 'Too many events.' "
+              "instead of completing the turn" % (first_line(raises[0], 60) if raises else "no event limit"), line=(raises[0].lineno if raises else fn.lineno))
+
+
+UTILS1 = "nemoguardrails/actions/llm/utils.py"
+
+
+def c_generated_flow_name(ctx):
+    """Colang 2.x LLM continuation: the generated flow is registered by the PARSER under the name it reads from `flow <name>`, and started by the name the ACTION returns.
+    Both come from the LLM's bot intent through escape_flow_name.  Whatever the parser reads differently from plain name characters must be removed there: `$word` becomes a
+    parameter, `#` starts a comment, surplus blanks are dropped - the returned name is then undefined, `continuation on undefined flow` asks the LLM for that name again and
+    again (~80 calls), the reply is empty and the conversation stays dead (F152)."""
+    t = ctx.tree.ast(UTILS1)
+    fn = find_function(t, "escape_flow_name")
+    if fn is None:
+        raise AnalysisError("escape_flow_name not found", anchor=UTILS1 + "::escape_flow_name")
+    removed = _escaped_chars(fn)
+    collapses = any(isinstance(c, ast.Call) and isinstance(c.func, ast.Attribute) and c.func.attr == "split" and not c.args for c in ast.walk(fn)) or \
+        any(isinstance(c, ast.Call) and src(c.func) == "re.sub" and c.args and isinstance(c.args[0], ast.Constant) and re.search(r"\\s[+*]|\[ \\t\]\+| \+|\\s\{2", str(c.args[0].value)) for c in ast.walk(fn))
+    missing = [ch for ch in "$#" if ch not in removed]
+    ok = not missing and collapses
+    ctx.check("C17.c.generated-flow-name", UTILS1, "escape_flow_name", "characters the parser does not read as part of a flow name", ok,
+              "`$`, `#` are removed and white space is collapsed: the name the action returns is the name the parser registers" if ok else
+              "escape_flow_name keeps %s%s: a bot intent like `bot tell $joke` / `bot give  answer` is registered under a different name than the one that is started - the undefined "
+              "flow is regenerated until the event budget is exhausted (dozens of LLM calls, empty reply, every later turn empty)"
+              % (", ".join("`%s`" % m for m in missing) or "", (" and " if missing else "") + ("surplus white space" if not collapses else "")), line=fn.lineno)
 
 
 def b_guards_live(ctx):
